@@ -88,6 +88,10 @@ func (s *Streamer) Stream(ctx context.Context, sendTransaction SendTransactionFu
 
 //Error 每次使用Stream后需要检测Error
 func (s *Streamer) Error() error {
+	if s.errChan == nil {
+		// no dump was started, so there is no reader to report a reason
+		return nil
+	}
 	select {
 	case err, ok := <-s.errChan:
 		if ok {
